@@ -4,7 +4,7 @@
 From Coq Require Import Extraction ExtrOcamlBasic ExtrOcamlString.
 From QSX Require Import Base.QSum LP.ILP LP.Cert LP.User LP.OptTest LP.Driver.
 (* one Require line per area may be added below *)
-From QSX Require Import IO.Num IO.Equiv IO.Bounds IO.Bas.
+From QSX Require Import IO.Num IO.Equiv IO.Bounds IO.Bas IO.Sol.
 
 Extraction Language OCaml.
 Extraction "model.ml"
@@ -16,4 +16,5 @@ Extraction "model.ml"
   (* add names below, one line per area *)
   read_num_gen get_value print_num equiv_by_name row_empty encode_bounds decode_bounds
   write_basis read_basis qs_write_basis
+  print_section parse_line
   .
